@@ -42,6 +42,13 @@ pub enum Event {
         prev: Option<String>,
         level: usize,
     },
+    /// the scheduler-side execution (init/run/next) of a task begins / ends
+    Exec {
+        seq: u64,
+        pid: String,
+        tid: String,
+        phase: &'static str,
+    },
     /// a client message / process event is generated (before its dispatch is spawned)
     Emit {
         seq: u64,
@@ -152,5 +159,35 @@ pub fn pause(_w: &'static str) {
         if n > 0 {
             std::thread::sleep(std::time::Duration::from_micros(n));
         }
+    }
+}
+
+/// records the begin of a task execution now and its end when dropped
+pub struct ExecSpan {
+    pid: String,
+    tid: String,
+}
+
+pub fn exec_span(pid: &str, tid: &str) -> ExecSpan {
+    push(Event::Exec {
+        seq: next_seq(),
+        pid: pid.to_string(),
+        tid: tid.to_string(),
+        phase: "begin",
+    });
+    ExecSpan {
+        pid: pid.to_string(),
+        tid: tid.to_string(),
+    }
+}
+
+impl Drop for ExecSpan {
+    fn drop(&mut self) {
+        push(Event::Exec {
+            seq: next_seq(),
+            pid: self.pid.clone(),
+            tid: self.tid.clone(),
+            phase: "end",
+        });
     }
 }
